@@ -41,6 +41,9 @@ structure Ctx where
   blockChecksum   : Bool := false         -- frameInfo.blockChecksumFlag
   contentChecksum : Bool := false         -- frameInfo.contentChecksumFlag
   contentSize     : Nat := 0              -- frameInfo.contentSize
+  bsid            : Nat := 0              -- frameInfo.blockSizeID
+  dictID          : Nat := 0              -- frameInfo.dictID
+  skippable       : Bool := false         -- frameInfo.frameType == LZ4F_skippableFrame
   frameRemaining  : Int := 0              -- frameRemainingSize
   maxBlockSize    : Nat := 0
   maxBufferSize   : Nat := 0
@@ -68,15 +71,15 @@ def hErrCode : FrameD.HErr → Nat
   | .headerChecksum_invalid => LZ4V.Gen.LZ4F_ERROR_headerChecksum_invalid
 
 /-- `MEM_INIT(&(dctx->frameInfo), 0, sizeof(dctx->frameInfo))` -/
-def clearFrameInfo (c : Ctx) : Ctx := { c with linked := true, blockChecksum := false, contentChecksum := false, contentSize := 0 }
+def clearFrameInfo (c : Ctx) : Ctx := { c with linked := true, blockChecksum := false, contentChecksum := false, contentSize := 0, bsid := 0, dictID := 0, skippable := false }
 
 /-- `LZ4F_decodeHeader(dctx, src, srcSize)`; `fromHeader` = the C's `src == dctx->header`.  Returns the context and the number of bytes read. -/
 def decodeHeader (E : Env) (c : Ctx) (src : Bytes) (fromHeader : Bool) : Except Nat (Ctx × Nat) :=
   if src.length < minFHSize then .error LZ4V.Gen.LZ4F_ERROR_frameHeader_incomplete else
   let c := clearFrameInfo c
   if isSkippableMagic (le (src.take 4)) then
-    if fromHeader then .ok ({ c with staged := src, tmpInTarget := 8, stage := .storeSFrameSize }, src.length)
-    else .ok ({ c with stage := .getSFrameSize }, 4)
+    if fromHeader then .ok ({ c with skippable := true, staged := src, tmpInTarget := 8, stage := .storeSFrameSize }, src.length)
+    else .ok ({ c with skippable := true, stage := .getSFrameSize }, 4)
   else
     match FrameD.decodeHeader E.hash src with
     | .error e => .error (hErrCode e)
@@ -84,7 +87,7 @@ def decodeHeader (E : Env) (c : Ctx) (src : Bytes) (fromHeader : Bool) : Except 
     | .ok (.done hdr size) =>
       .ok ({ c with linked := !hdr.blockIndep, blockChecksum := hdr.blockChecksum, contentChecksum := hdr.contentChecksum,
                     maxBlockSize := hdr.maxBlock,
-                    contentSize := hdr.contentSize.getD 0,
+                    contentSize := hdr.contentSize.getD 0, bsid := hdr.bsid, dictID := hdr.dictId.getD 0,
                     frameRemaining := (match hdr.contentSize with | some v => (v : Int) | none => c.frameRemaining),
                     stage := .init }, size)
 
@@ -310,5 +313,54 @@ def decompress (E : Env) (c : Ctx) (src : Bytes) (cap : Nat) (skipOpt : Bool) : 
 /-- `LZ4F_decompress_usingDict` -/
 def decompressUsingDict (E : Env) (c : Ctx) (src : Bytes) (cap : Nat) (dict : Bytes) (skipOpt : Bool) : Result :=
   decompress E (if c.stage.toNat ≤ Stage.init.toNat then { c with dict := dict } else c) src cap skipOpt
+
+/-- `LZ4F_headerSize` -/
+def headerSize (src : Bytes) : Except Nat Nat :=
+  if src.length < LZ4V.Gen.LZ4F_MIN_SIZE_TO_KNOW_HEADER_LENGTH then .error LZ4V.Gen.LZ4F_ERROR_frameHeader_incomplete
+  else if isSkippableMagic (le (src.take 4)) then .ok 8
+  else if le (src.take 4) ≠ LZ4V.Gen.LZ4F_MAGICNUMBER then .error LZ4V.Gen.LZ4F_ERROR_frameType_unknown
+  else
+    let FLG := FrameD.byteAt src 4
+    .ok (minFHSize + (if (FLG >>> 3) &&& 1 ≠ 0 then 8 else 0) + (if FLG &&& 1 ≠ 0 then 4 else 0))
+
+/-- `LZ4F_frameInfo_t` as reported by `LZ4F_getFrameInfo` -/
+structure FrameInfo where
+  blockSizeID : Nat
+  linked : Bool
+  contentChecksum : Bool
+  skippable : Bool
+  contentSize : Nat
+  dictID : Nat
+  blockChecksum : Bool
+deriving Repr, DecidableEq
+
+def infoOf (c : Ctx) : FrameInfo :=
+  { blockSizeID := c.bsid, linked := c.linked, contentChecksum := c.contentChecksum, skippable := c.skippable, contentSize := c.contentSize,
+    dictID := c.dictID, blockChecksum := c.blockChecksum }
+
+/-- what `LZ4F_getFrameInfo` reports: context, `*srcSizePtr`, `*frameInfoPtr` (when written), return value -/
+structure InfoResult where
+  c        : Ctx
+  consumed : Nat
+  info     : Option FrameInfo
+  ret      : Ret
+
+/-- `LZ4F_getFrameInfo(dctx, &info, src, &srcSize)` -/
+def getFrameInfo (E : Env) (c : Ctx) (src : Bytes) : InfoResult :=
+  if c.stage.toNat > Stage.storeFrameHeader.toNat then
+    -- frameInfo already decoded: `LZ4F_decompress(dctx, NULL, &o, NULL, &i, NULL)` with o = i = 0 gives the hint
+    let r := decompress E c [] 0 false
+    { c := r.c, consumed := 0, info := some (infoOf c), ret := r.ret }
+  else if c.stage.toNat = Stage.storeFrameHeader.toNat then
+    { c := c, consumed := 0, info := none, ret := .error LZ4V.Gen.LZ4F_ERROR_frameDecoding_alreadyStarted }
+  else
+    match headerSize src with
+    | .error e => { c := c, consumed := 0, info := none, ret := .error e }
+    | .ok hSize =>
+      if src.length < hSize then { c := c, consumed := 0, info := none, ret := .error LZ4V.Gen.LZ4F_ERROR_frameHeader_incomplete }
+      else
+        match decodeHeader E c (src.take hSize) false with
+        | .error e => { c := c, consumed := 0, info := none, ret := .error e }
+        | .ok (c', n) => { c := c', consumed := n, info := some (infoOf c'), ret := .hint BHSize }
 
 end LZ4V.Model.FrameDS
